@@ -26,20 +26,20 @@ func init() {
 }
 
 type faultFile struct {
-	File     string `json:"file"`
-	Codec    string `json:"codec"`
-	Fmt      string `json:"fmt"`
-	Fault    string `json:"fault"` // none | trunc | flip
-	T        int    `json:"t"`     // truncation length / flipped bit index
-	Clen     int    `json:"clen"`  // compressed length of the intact file
-	D        int    `json:"D"`     // decompressed length of the intact file
-	Dl       int    `json:"d"`     // bytes the codec delivers before its final status
-	Err      string `json:"err"`   // none | ueof | other | open
-	Same     int    `json:"same"`  // delivered bytes are the whole original
-	Nrec     int    `json:"nrec"`
-	ErrText  string `json:"errtext"`
-	SizeTag  string `json:"size"`
-	Pgz      string `json:"pgz"` // gz only: does klauspost/pgzip (the reader the repository links) itself report the fault ?
+	File    string `json:"file"`
+	Codec   string `json:"codec"`
+	Fmt     string `json:"fmt"`
+	Fault   string `json:"fault"` // none | trunc | flip
+	T       int    `json:"t"`     // truncation length / flipped bit index
+	Clen    int    `json:"clen"`  // compressed length of the intact file
+	D       int    `json:"D"`     // decompressed length of the intact file
+	Dl      int    `json:"d"`     // bytes the codec delivers before its final status
+	Err     string `json:"err"`   // none | ueof | other | open
+	Same    int    `json:"same"`  // delivered bytes are the whole original
+	Nrec    int    `json:"nrec"`
+	ErrText string `json:"errtext"`
+	SizeTag string `json:"size"`
+	Pgz     string `json:"pgz"` // gz only: does klauspost/pgzip (the reader the repository links) itself report the fault ?
 }
 
 // pgzipVerdict runs the third-party gzip reader used by the repository directly on the bytes.
